@@ -6,6 +6,7 @@ import NPModel.Refine.Rows
 import NPModel.Refine.PackFlat
 import NPModel.Refine.Samples
 import NPModel.Refine.PackSorted
+import NPModel.Refine.JoinRows
 namespace NP.C02
 open NP
 variable {α : Type}
@@ -90,6 +91,37 @@ theorem packed_chunk_rows (offs : List Nat) (cols : List (String × String × Li
     (packedChunk offs cols).rows = (List.range (offs.length - 1)).map fun i =>
       some (cols.map fun col => (col.1, (segs offs col.2.2).getD i [])) :=
   packedChunk_rows offs cols
+
+/-! ### end to end on the implementation model -/
+
+/-- **Packing then flattening is the stable sort by label** (`NP.packFlat` then `NP.NSeries.toFlat`,
+    the models of `pack_flat` and `.nest.to_flat()` checked against the code).  For ANY flat
+    table with at least one column and pairwise distinct column names — any labels in any order,
+    repeated or not, any number of records — `pack_flat` succeeds and `to_flat()` of the packed
+    series is the table read through the stable sort permutation: the same records, cell for cell
+    in every column, grouped by ascending label, original relative order kept inside every label.
+    Nothing is lost, duplicated or invented (`stable_sort_is_permutation`). -/
+theorem pack_then_flatten_is_stable_sort [Inhabited α] (df : FlatDF α) (hne : df.cols ≠ [])
+    (hd : (df.cols.map (·.1)).Pairwise (· ≠ ·)) :
+    ∃ packed, packFlat df = .ok packed ∧
+      packed.toFlat none = .ok (df.reorder (stableSortPerm df.index) default) :=
+  packFlat_toFlat df hne hd
+
+/-- the positions the sorted table is read through are a permutation of `0..n-1` that reads the
+    labels in non-decreasing order -/
+theorem stable_sort_is_permutation (index : List Label) :
+    (stableSortPerm index).Perm (List.range index.length) ∧
+    ((stableSortPerm index).map fun i => index.getD i (.int 0)).Pairwise (fun a b => a.le b = true) := by
+  constructor
+  · rw [stableSortPerm_eq, ← zipIdx_snd]
+    exact (sortedByLabel_perm _).map _
+  · rw [reorder_index]
+    exact sortedByLabel_sorted _
+
+/-- non-vacuity: the hypotheses hold of the table labelled `[b, a, b]` with columns `t`, `u` -/
+example : ([("t", "int64", [10, 11, 12]), ("u", "int64", [0, 1, 2])] : List (String × String × List Nat)) ≠ [] ∧
+    (([("t", "int64", [10, 11, 12]), ("u", "int64", [0, 1, 2])] : List (String × String × List Nat)).map (·.1)).Pairwise (· ≠ ·) := by
+  decide
 
 example : (PList.ofRows [some [1, 2], none, some [], some [3]]).rows = [some [1, 2], none, some [], some [3]] := by
   decide
